@@ -255,6 +255,8 @@ pub(crate) struct Runner<'a, C: SimCfg> {
     /// suspension points counted on the fault target of this run
     pub(crate) suspensions_seen: u64,
     pub(crate) fault_fired: bool,
+    /// a concurrent request may end with the injected executor panic
+    pub(crate) tolerate_injected: bool,
     /// inputs whose set_input call was cancelled: (node, old, new)
     pub(crate) uncertain_inputs: Vec<(u32, Option<Val>, Val)>,
     pub(crate) pipeline_gap: Option<String>,
@@ -744,8 +746,9 @@ pub(crate) fn run_generic_in<C: SimCfg>(
     let h = Harness::new(sc.program.clone());
     crate::queries::set_event_sink(Some(h.clone()));
     let mut model = Model::new(&sc.program);
-    model.check_c03 = sc.cfg.check_c03;
+    model.check_c03 = sc.cfg.check_c03 && !sc.cfg.no_values;
     model.cyclic = sc.cfg.cyclic;
+    model.no_values = sc.cfg.no_values;
     let mut runner = Runner::<C> {
         sc,
         h: h.clone(),
@@ -759,6 +762,7 @@ pub(crate) fn run_generic_in<C: SimCfg>(
         input_history: vec![std::collections::HashMap::new()],
         suspensions_seen: 0,
         fault_fired: false,
+        tolerate_injected: false,
         uncertain_inputs: Vec::new(),
         pipeline_gap: None,
         engine: None,
